@@ -456,7 +456,7 @@ impl<'r> Gen<'r> {
     }
 
     pub fn tree(&mut self, depth: u32) -> Tree {
-        let leafy = depth >= 3 || self.rng.chance(60, 100);
+        let leafy = depth >= 4 || self.rng.chance(if depth >= 3 { 85 } else { 60 }, 100);
         if leafy {
             return match self.rng.below(6) {
                 0 => Tree::Bool(self.rng.chance(1, 2)),
@@ -485,7 +485,19 @@ impl<'r> Gen<'r> {
         for _ in 0..n {
             let used: Vec<String> = kvs.iter().map(|(k, _)| k.clone()).collect();
             let k = self.name(&used);
-            let v = self.tree(depth + 1);
+            let v = if depth < 3 && self.rng.chance(1, 8) {
+                // an array mixing tables and non-tables (it has to stay inline wherever it is)
+                let mut xs = vec![self.tree(4), self.table_tree(depth + 2)];
+                if self.rng.chance(1, 2) {
+                    xs.push(self.tree(4));
+                }
+                if self.rng.chance(1, 2) {
+                    xs.reverse();
+                }
+                Tree::Arr(xs)
+            } else {
+                self.tree(depth + 1)
+            };
             kvs.push((k, v));
         }
         Tree::Tab(kvs)
